@@ -113,4 +113,9 @@ pub trait Exec {
     fn finish(&mut self) -> StepOut {
         StepOut::default()
     }
+    /// The op `words` panicked.  If no panic is specified for it, name the
+    /// property that forbids it (`"Cxx unexpected panic ..."`).
+    fn panic_violation(&self, _words: &[&str]) -> Option<String> {
+        None
+    }
 }
